@@ -57,6 +57,9 @@ def worker_main(pid):
             if u.get('kind') == 'lazy':             # shared workload: lazily consumed iselect with caller edits (vlib/lazy.py)
                 from . import lazy
                 r = lazy.run_unit(u, sig)
+            elif u.get('kind') == 'faultcompile':   # shared workload: compiles cut short by a fault (vlib/faultcompile.py)
+                from . import faultcompile
+                r = faultcompile.run_unit(u, sig)
             else:
                 r = mod.run_unit(u)
         except BaseException as ex:  # noqa: BLE001 - a crashing harness is reported, not hidden
@@ -271,6 +274,9 @@ def run_replay(pid, path):
     if 'lazy' in w:
         from . import lazy
         r = lazy.replay(w, sig)
+    elif 'faultcompile' in w:
+        from . import faultcompile
+        r = faultcompile.replay(w, sig)
     else:
         r = mod.replay(w)
     if r is None:
